@@ -58,6 +58,8 @@ def run_worlds(worlds, jobs=None):
             a = "agree " + a.split(" ", 2)[1] + " order-dependent-availability(fixpoints-equal) " + a.split(" ", 2)[2]
         c = C.Case(r.request, r.observation, a, tag=r.world.tag or "world")
         c.result = r
+        if getattr(r, "ghost_changed", False):
+            c.fails = c.fails + ["c03-outside-changed"]        # a symbolic link below a scan directory was replaced or removed
         cases.append(c)
     return cases
 
